@@ -1,9 +1,9 @@
 //! IEEE 802.15.4 frames (src/wire/ieee802154.rs): streams wire2-ieee154-emit / wire2-ieee154-parse.
 //! Repr fields: ft=<u8 code> sec=0|1 fp=0|1 ar=0|1 seq=<u8>|none c=0|1 ver=<u8 code>
 //!              dpan=<u16>|none dst=none|absent|<2 or 8 octets> span=<u16>|none src=…
-//! One emit case = one choice of (frame type, version, security bit, flags, numbers) and ALL 32
-//! combinations of (dst address kind, src address kind, PAN id compression), each emitted into the
-//! four initial buffers.  Parse cases are built from a frame control word with every addressing
+//! One emit case = two choices of (frame type, version, security bit) — enumerated round-robin, see
+//! EMIT_COUNTER — with random flags / numbers and ALL 32 combinations of (dst address kind, src address
+//! kind, PAN id compression) each, every representation emitted into the four initial buffers.  Parse cases are built from a frame control word with every addressing
 //! mode / version / frame type, the addressing fields the real accessors expect, and (when the
 //! security bit is set) an auxiliary security header with every key identifier mode, with and
 //! without frame counter, every security level, and a tail that may be shorter than the MIC.
@@ -90,42 +90,50 @@ fn gen_addr(r: &mut Rng, kind: u64) -> String {
     }
 }
 
+/// (frame type, version, security bit) of the emit cases are enumerated round-robin: case k of a
+/// generator run covers combinations 2k and 2k+1 of the 64 in-range ones + 8 out-of-range extras,
+/// so every run of at least 36 cases (one quick shard has 40) emits every combination.
+static EMIT_COUNTER: std::sync::atomic::AtomicUsize = std::sync::atomic::AtomicUsize::new(0);
+
 fn gen_emit(r: &mut Rng, _tier: &str) -> Vec<String> {
-    // frame type: the seven known codes, the unknown code 4, sometimes a code beyond the 3-bit field
-    let ft = match r.below(10) {
-        9 => 8 + r.below(248),
-        k => k.min(7),
-    };
-    let ver = match r.below(9) {
-        8 => 4 + r.below(252), // Unknown(k) beyond the field: outside the proviso
-        k => k % 4,
-    };
-    let sec = r.chance(1, 4) as u8;
-    let (fp, ar) = (r.below(2), r.below(2));
-    let seq = if r.chance(1, 6) { "none".to_string() } else { gen_u8(r).to_string() };
+    let k = EMIT_COUNTER.fetch_add(1, std::sync::atomic::Ordering::Relaxed);
     let mut ops = vec![];
-    for dk in 0..4u64 {
-        for sk in 0..4u64 {
-            for c in 0..2u64 {
-                // PAN ids: mostly the combination emit's layout carries, sometimes any other
-                let (dpan, span) = if r.chance(3, 4) { (true, c == 0) } else { (r.chance(1, 2), r.chance(1, 2)) };
-                let f = format!(
-                    "ft={} sec={} fp={} ar={} seq={} c={} ver={} dpan={} dst={} span={} src={}",
-                    ft,
-                    sec,
-                    fp,
-                    ar,
-                    seq,
-                    c,
-                    ver,
-                    if dpan { gen_u16(r).to_string() } else { "none".into() },
-                    gen_addr(r, dk),
-                    if span { gen_u16(r).to_string() } else { "none".into() },
-                    gen_addr(r, sk),
-                );
-                let len = repr_of(&Kv::parse(&f)).buffer_len();
-                for b in gen_buffers(r, len) {
-                    ops.push(format!("emit buf={} {}", hex(&b), f));
+    for j in 0..2 {
+        let idx = ((2 * k + j) % 72) as u64;
+        // frame type: the seven known codes and the unknown code 4; extras: a code beyond the 3-bit
+        // field / an Unknown(k) version beyond the 2-bit field (outside the proviso)
+        let (ft, ver, sec) = if idx < 64 {
+            (idx % 8, (idx / 8) % 4, idx / 32)
+        } else if idx % 2 == 0 {
+            (8 + r.below(248), r.below(4), r.below(2))
+        } else {
+            (r.below(8), 4 + r.below(252), r.below(2))
+        };
+        let (fp, ar) = (r.below(2), r.below(2));
+        let seq = if r.chance(1, 6) { "none".to_string() } else { gen_u8(r).to_string() };
+        for dk in 0..4u64 {
+            for sk in 0..4u64 {
+                for c in 0..2u64 {
+                    // PAN ids: mostly the combination emit's layout carries, sometimes any other
+                    let (dpan, span) = if r.chance(3, 4) { (true, c == 0) } else { (r.chance(1, 2), r.chance(1, 2)) };
+                    let f = format!(
+                        "ft={} sec={} fp={} ar={} seq={} c={} ver={} dpan={} dst={} span={} src={}",
+                        ft,
+                        sec,
+                        fp,
+                        ar,
+                        seq,
+                        c,
+                        ver,
+                        if dpan { gen_u16(r).to_string() } else { "none".into() },
+                        gen_addr(r, dk),
+                        if span { gen_u16(r).to_string() } else { "none".into() },
+                        gen_addr(r, sk),
+                    );
+                    let len = repr_of(&Kv::parse(&f)).buffer_len();
+                    for b in gen_buffers(r, len) {
+                        ops.push(format!("emit buf={} {}", hex(&b), f));
+                    }
                 }
             }
         }
